@@ -195,6 +195,9 @@ pub enum PeerKind {
     /// FDL-only station: answers FDL status requests; every other request gets the negative
     /// acknowledgement RS (service not activated)
     FdlOnly,
+    /// defective device: every reply breaks off after a few bytes (a status reply after three, any
+    /// other after the header of a long telegram); it never answers anything
+    Defective,
 }
 
 pub struct Peers {
@@ -239,6 +242,13 @@ impl VirtualNode for Peers {
                     rc::encode(&RefFrame::Data { da: *sa, sa: *da, dsap: None, ssap: None, fc: [0x02u8, 0x03, 0x01][usize::from(*da) % 3], pdu: vec![] })
                 } else {
                     return vec![];
+                }
+            }
+            PeerKind::Defective => {
+                if is_status {
+                    normal[..3].to_vec()
+                } else {
+                    vec![rc::SD2, 0xD9, 0xD9, rc::SD2, *sa, *da, 0x08]
                 }
             }
             PeerKind::Answer | PeerKind::Late => normal,
